@@ -74,7 +74,8 @@ func resolveComputedFields(env *Environment, errorSink *validation.ErrorSink) *E
 			innerTypeKind, innerTypeIsPrimitive := GetKindIfPrimitive(innerType)
 			targetTypeKind, targetTypeIsPrimitive := GetKindIfPrimitive(t.Type)
 			if innerTypeIsPrimitive && targetTypeIsPrimitive {
-				if innerTypeKind == targetTypeKind {
+				// string, bool, date, time and datetime share the kind "other" but do not convert into one another
+				if innerTypeKind == targetTypeKind && innerTypeKind != PrimitiveKindOther {
 					return adjustConversion(t)
 				}
 
